@@ -493,6 +493,14 @@ def _work_body(item: dict, res: dict, gschema, live, load) -> None:
                     continue
                 cases, err = _draw(strategy, n, rng_seed + 7919 * ci + len(res["docs"]))
                 record(list(cfg), op, access, cases, err)
+            if ci == 0 and access == "getitem-query-first" and not only:
+                # the same schema object asked again for every operation (answered from its operation cache this time)
+                for op in reversed(order):
+                    try:
+                        cases, err = _draw(schema[op["rootName"]][op["field"]].as_strategy(generation_config=gen), 3, rng_seed + 17)
+                    except BaseException as exc:  # noqa: BLE001
+                        cases, err = [], "%s: %s" % (type(exc).__name__, str(exc)[:160])
+                    record(list(cfg), op, "getitem-second-lookup", cases, err)
         if ci == 0 and item.get("all_access", True) and not only:
             # the combined strategies: all operations of the schema / of one root type
             schema = load()
